@@ -25,6 +25,9 @@ var smMonad = "Go.SM"
 var smPartial func(n ast.Node) bool
 
 func (m *imp) mon() string {
+	if m.ck {
+		return "Go.CM"
+	}
 	if m.st {
 		return "Go.StM"
 	}
